@@ -82,18 +82,32 @@ def validate_dwt1(rep, pid, tier, which):
         if cfg["api"] != which:
             continue
         rep.nontriv(("stage_trace", repr(cfg)))
-        r = [k for k in range(a, b) if k in rej]
-        if r:
-            e = events[r[0]]
-            rep.violation("the recorded execution of %s at %s is not a behaviour of the call machine (spec/DWT1Calls.tla): event %r is not "
-                          "explained by any action" % (which, cfg, e), {"api": which, "check": "stage_trace", "cfg": cfg, "event": e,
-                                                                          "trace": events[a:b]})
-        else:
+        if judge(rep, events, a, b, rej, cfg, which, "call machine (spec/DWT1Calls.tla)"):
             n_acc += 1
     rep.count("stage_traces_accepted", n_acc)
     if cases:
         a, b, cfg = cases[0]
         rep.sample({"stage_trace": cfg, "events": events[a:b][:8]})
+
+
+def judge(rep, events, a, b, rej, cfg, api, machine):
+    """One recorded execution [a, b) against the rejected event indices.
+    A rejected INTERNAL event (a hook point between call and return) says that the code no longer takes the steps the Impl
+    model takes - a refactoring does that too (passes reordered, a hook moved or dropped) without breaking any property: it is
+    reported as impl-drift.  Only when every internal event is explained and the RETURN event - the API-level observable:
+    outcome, output shapes - is not, the execution is a VIOLATION.  Returns True when accepted."""
+    r = [k for k in range(a, b) if k in rej]
+    if not r:
+        return True
+    internal = [k for k in r if events[k].get("ev") != "ret"]
+    e = events[r[0]]
+    if internal:
+        rep.drift.append("stage trace of %s at %s: event %r is not a step of the %s (model fidelity; the API-level layers decide)" % (api, cfg, e, machine))
+        rep.count("stage_traces_drifted")
+    else:
+        rep.violation("%s at %s: every internal step is a step of the %s, but what the call RETURNED (%r) is not what the machine "
+                      "returns there" % (api, cfg, machine, e), {"api": api, "check": "stage_trace", "cfg": cfg, "event": e, "trace": events[a:b]})
+    return False
 
 
 def record_dtcwt(tier):
@@ -151,13 +165,7 @@ def validate_dtcwt(rep, pid, tier, which):
         if cfg["api"] != which:
             continue
         rep.nontriv(("stage_trace", repr(cfg)))
-        r = [k for k in range(a, b) if k in rej]
-        if r:
-            e = events[r[0]]
-            rep.violation("the recorded execution of %s at %s is not a behaviour of the pyramid machine (spec/DTCWT2.tla): event %r is not "
-                          "explained by any action" % (which, cfg, e), {"api": which, "check": "stage_trace", "cfg": cfg, "event": e,
-                                                                          "trace": events[a:b]})
-        else:
+        if judge(rep, events, a, b, rej, cfg, which, "pyramid machine (spec/DTCWT2.tla)"):
             n_acc += 1
     rep.count("stage_traces_accepted", n_acc)
     if cases:
@@ -234,12 +242,63 @@ def validate_dwt2(rep, pid, tier, which):
         if cfg["api"] != which:
             continue
         rep.nontriv(("stage_trace2", repr(cfg)))
-        r = [k for k in range(a, b) if k in rej]
-        if r:
-            e = events[r[0]]
-            rep.violation("the recorded execution of %s at %s is not a behaviour of the 2-D call machine (spec/DWT2.tla): event %r is not "
-                          "explained by any action" % (which, cfg, e), {"api": which, "check": "stage_trace", "cfg": cfg, "event": e,
-                                                                          "trace": events[a:b]})
-        else:
+        if judge(rep, events, a, b, rej, cfg, which, "2-D call machine (spec/DWT2.tla)"):
             n_acc += 1
     rep.count("stage_traces_2d_accepted", n_acc)
+
+
+def record_swt(tier):
+    import pywt
+    from pytorch_wavelets.dwt.transform2d import SWTForward
+    rng = np.random.default_rng(53000 + seed())
+    events, cases, buf = [], [], []
+
+    def sink(ev, f):
+        hookmap.swt(ev, f, buf)
+    _verif.set_sink(sink)
+    names = ["haar", "db2", "db4", "sym5", "bior2.2", "coif1"] if tier == "quick" else \
+        [n for n in pywt.wavelist(kind="discrete") if pywt.Wavelet(n).dec_len <= 24]
+    try:
+        for name in names:
+            w = pywt.Wavelet(name)
+            for k in range(3 if tier == "quick" else 5):
+                J = int(rng.integers(1, 5))
+                H, W = 2 ** J * int(rng.integers(1, 6)), 2 ** J * int(rng.integers(1, 6))
+                mode = ["periodization", "periodic"][k % 2]
+                # every third case: a wavelet per axis (4-tuple, other filter length on the rows)
+                w2 = pywt.Wavelet(names[(names.index(name) + 1) % len(names)]) if k % 3 == 2 else w
+                wave = name if w2 is w else (w.dec_lo, w.dec_hi, w2.dec_lo, w2.dec_hi)
+                start = len(events)
+                events.append({"ev": "reset"})
+                events.append({"ev": "call", "J": J, "mode": mode, "H": H, "W": W, "Lc": w.dec_len, "Lr": w2.dec_len})
+                del buf[:]
+                with torch.no_grad():
+                    try:
+                        out = SWTForward(J=J, wave=wave, mode=mode)(torch.zeros(2, 3, H, W))
+                        events.extend(buf)
+                        ok = all(tuple(o.shape) == tuple(out[0].shape) and o.dim() == 5 for o in out)
+                        events.append({"ev": "ret", "outcome": "ok", "count": len(out), "rows": int(out[0].shape[-2]) if ok else -1,
+                                       "cols": int(out[0].shape[-1]) if ok else -1, "bands": int(out[0].shape[2]) if ok else -1})
+                    except Exception:   # noqa
+                        events.extend(buf)
+                        events.append({"ev": "ret", "outcome": "raise", "count": 0, "rows": 0, "cols": 0, "bands": 0})
+                cases.append((start, len(events), dict(api="SWTForward", wavelet=name, rows_wavelet_len=w2.dec_len, mode=mode, H=H, W=W, J=J)))
+    finally:
+        _verif.set_sink(None)
+    return events, cases
+
+
+def validate_swt(rep, pid, tier):
+    events, cases = record_swt(tier)
+    c = dict(NSet={2}, LSet={2}, DSet={1}, Shard=0, NShards=1, Emit=False, SwtFix=True, PerFix=True)
+    rej = set(tracecheck.validate(rep, "Trace_SWT", events, c, "Trace_SWT", batch=100000, spec="TraceSpec"))
+    n_acc = 0
+    for a, b, cfg in cases:
+        rep.nontriv(("stage_trace_swt", repr(cfg)))
+        if judge(rep, events, a, b, rej, cfg, "SWTForward", "level machine (spec/SWT.tla via Trace_SWT.tla: level order, dilation 2^(level-1), pad "
+                 "L*d/2-d | L*d/2, row filters on rows / column filters on columns, full-size output)"):
+            n_acc += 1
+    rep.count("stage_traces_swt_accepted", n_acc)
+    if cases:
+        a, b, cfg = cases[0]
+        rep.sample({"stage_trace": cfg, "events": events[a:b][:6]})
